@@ -22,6 +22,7 @@ import (
 
 	"verif/sim/engine"
 	"verif/sim/gen"
+	"verif/sim/model"
 	"verif/sim/oracle"
 	"verif/sim/vnet"
 )
@@ -69,6 +70,7 @@ type Summary struct {
 	FirstSeed  int64          `json:"first_seed"`
 	LastSeed   int64          `json:"last_seed"`
 	RaceBuild  bool           `json:"race_build"`
+	Seqs       []string       `json:"seqs"` // distinct (path, class, class) prefixes of emission plans
 }
 
 func traceLine(e vnet.Ev) string {
@@ -156,6 +158,37 @@ func tapeHash(t []int) uint64 {
 	return f.Sum64()
 }
 
+// plan counts what the scenario set out to do: operations, delivery paths, and - for the class-sequence
+// coverage of C03 - the classes of the first two datagrams of every emission plan in arrival order.
+func plan(sum *Summary, sc *engine.Scenario, seqs map[string]bool) {
+	c := sum.Counters
+	for _, t := range sc.Tasks {
+		for _, st := range t.Steps {
+			switch st.Kind {
+			case "call":
+				c["op:"+st.Op.String()]++
+				rt := model.RouteOf(gen.ClientConf(&sc.Clients[st.Client]), st.Op, st.Args.Serial)
+				c["path:"+rt.Path]++
+				em := append([]engine.Emit{}, st.Plan.Emits...)
+				sort.SliceStable(em, func(i, j int) bool { return em[i].After < em[j].After })
+				key := rt.Path
+				for i := 0; i < len(em) && i < 2; i++ {
+					key += ">" + em[i].Class
+				}
+				seqs[key] = true
+			case "listen":
+				c["listen-steps"]++
+				c["listen-datagrams"] += len(st.Feed)
+			default:
+				c["step:"+st.Kind]++
+			}
+		}
+	}
+	if sc.TZ != "" {
+		c["zones-used"]++
+	}
+}
+
 func count(sum *Summary, res *engine.Result) {
 	c := sum.Counters
 	for k, v := range res.Stats {
@@ -167,8 +200,13 @@ func count(sum *Summary, res *engine.Result) {
 			c[e.Kind+":"+classOf(e.Note)]++
 		case "read-fail", "write-fail", "dial-fail", "bind-fail":
 			c[e.Kind+":"+e.Err]++
-		case "tcp-rst", "tcp-fin", "icmp-refuse", "tcp-rst-syn", "tcp-synack", "lock", "sleep", "leaked-blocked", "leaked-socket", "scribble":
+		case "tcp-rst", "tcp-fin", "icmp-refuse", "tcp-rst-syn", "tcp-synack", "sleep", "leaked-blocked", "leaked-socket", "scribble":
 			c[e.Kind]++
+		case "lock":
+			c[e.Kind]++
+			if e.Note != "" && e.Note != "0" {
+				c["probe:lock-had-to-wait"]++
+			}
 		case "point":
 			switch e.Note {
 			case "call-begin":
@@ -205,6 +243,7 @@ func TestWorker(t *testing.T) {
 	if prop == "" {
 		t.Skip("VERIF_PROP not set")
 	}
+	gen.Thorough = os.Getenv("VERIF_TIER") == "thorough"
 	mode := os.Getenv("VERIF_MODE")
 	if mode == "" {
 		mode = "sweep"
@@ -253,6 +292,7 @@ func TestWorker(t *testing.T) {
 	sum := &Summary{Kind: "summary", Prop: prop, Counters: map[string]int{}, RaceBuild: vnet.RaceBuild}
 	shapes := map[uint64]bool{}
 	inter := map[uint64]bool{}
+	seqs := map[string]bool{}
 	start := time.Now()
 	sigSeen := map[string]int{}
 
@@ -280,6 +320,7 @@ func TestWorker(t *testing.T) {
 		sum.SimTimeNs += int64(res.SimTime)
 		sum.Steps += int64(res.Steps)
 		count(sum, res)
+		plan(sum, sc, seqs)
 		h, nt := shape(res)
 		if nt {
 			sum.Nontrivial++
@@ -353,6 +394,10 @@ func TestWorker(t *testing.T) {
 		}
 		sort.Slice(sum.Interleave, func(i, j int) bool { return sum.Interleave[i] < sum.Interleave[j] })
 	}
+	for k := range seqs {
+		sum.Seqs = append(sum.Seqs, k)
+	}
+	sort.Strings(sum.Seqs)
 	emit(sum)
 }
 
